@@ -167,6 +167,75 @@ func runMuxLiveness(role, kind string) (impl, pred string) {
 	return impl, pred
 }
 
+// runMuxAcceptorClosesMid: peer closes mid-negotiation, multiplexed, plugin accepting: the plugin accepted id 70, the
+// host's knock for 70 has been acknowledged, and the plugin closes the listener BEFORE the announced stream reaches its
+// main accept loop (the schedule point is the loop's `grpcmux.server.accepted`).  The dial's first call fails or not —
+// what matters is that the plugin's accept loop is not wedged: a fresh pair on another id works afterwards.
+// (The hook is process-wide: this cell runs while no other multiplexed pair is active.)
+func runMuxAcceptorClosesMid() (impl, pred string) {
+	p, err := newGrpcPair(true)
+	if err != nil {
+		return "setup-error", "FAIL:setup"
+	}
+	defer p.close()
+	ln, err := p.plug.Accept(70)
+	if err != nil {
+		return "accept-err", "FAIL:setup-accept"
+	}
+	var once sync.Once
+	closed := make(chan struct{})
+	plugin.VerifSetPoint("grpcmux.server.accepted", func() { once.Do(func() { ln.Close(); close(closed) }) })
+	defer plugin.VerifSetPoint("grpcmux.server.accepted", nil)
+	t0 := time.Now()
+	ans, conn, err := pingKeep(p.host, 70, 3*time.Second)
+	if conn != nil {
+		conn.Close()
+	}
+	first := "err"
+	if err == nil && ans == "70" {
+		first = "ok"
+	}
+	if time.Since(t0) > 9*time.Second {
+		first = "slow"
+	}
+	fired := false
+	select {
+	case <-closed:
+		fired = true
+	default:
+	}
+	plugin.VerifSetPoint("grpcmux.server.accepted", nil)
+	go func() {
+		defer func() { recover() }()
+		servePingPong(p.plug, 80)
+	}()
+	time.Sleep(150 * time.Millisecond)
+	ans, conn2, err := pingKeep(p.host, 80, 8*time.Second)
+	if conn2 != nil {
+		defer conn2.Close()
+	}
+	fresh := "ok"
+	if err != nil || ans != "80" {
+		fresh = "failed"
+	}
+	mainOK := true
+	if err, hung, pp := withTimeout(5*time.Second, p.client.Ping); err != nil || hung || pp != nil {
+		mainOK = false
+	}
+	impl = fmt.Sprintf("closed-mid=%s first=%s fresh=%s main=%s", b01(fired), first, fresh, b01(mainOK))
+	switch {
+	case !fired:
+		return impl, "FAIL:setup-schedule-point-not-reached"
+	case first == "slow":
+		return impl, "FAIL:dial-not-bounded"
+	case fresh != "ok":
+		return impl, "FAIL:fresh-pair-failed-after-acceptor-closed-mid-negotiation"
+	case !mainOK:
+		return impl, "FAIL:main-connection-dead"
+	}
+	return impl, "ok"
+}
+
 // runEarlyAccept: a real gRPC plugin accepts IDs 1..3 while its server is being initialised; the host attaches `delay`
 // later (its broker stream starts only then) and dials each ID at once: every first call must be answered by its ID.
 func runEarlyAccept(delay time.Duration) (impl, pred string) {
